@@ -167,6 +167,19 @@ def corner_ops(rng, spec, guarded):
             if perm != steps_:
                 ops.append({"op": "setlist", "kind": "journeys", "name": ujn, "attr": "uj_steps", "items": perm})
                 break
+    # the type of a server changed in place (no fixed count: a fixed count is only legal on-premise)
+    svs = [n_ for n_ in spec["servers"] if n_ in reach_all and spec["servers"][n_].get("fixed_nb_of_instances") is None]
+    if svs:
+        n_ = rng.choice(sorted(svs))
+        cur = spec["servers"][n_]["server_type"]
+        ops.append({"op": "settype", "kind": "servers", "name": n_, "value": rng.choice([t for t in ("autoscaling", "on-premise", "serverless") if t != cur])})
+    # a journey that goes through one of its steps once more (same members: only the multiplicity changes)
+    for p in spec["system"]["usage_patterns"]:
+        ujn = spec["patterns"][p]["usage_journey"]
+        steps_ = spec["journeys"][ujn]["uj_steps"]
+        if steps_ and len(steps_) < 5:
+            ops.append({"op": "setlist", "kind": "journeys", "name": ujn, "attr": "uj_steps", "items": steps_ + [rng.choice(steps_)]})
+            break
     if not ops:
         return None
     op = rng.choice(ops)
